@@ -247,9 +247,25 @@ def correspond(ctx):
         dist["files"] += nf; dist["selected"] += ns
         if ns > 0 and reasons:
             nontrivial.add(json.dumps([c["tree"], c["patterns"]], sort_keys=True))
+    # the Lean model of the six pattern classes (Spec/Gitignore.lean; Props/C11pat.lean instantiate the C11 / C12
+    # theorems with it) against pathspec as Code Limit builds it, and end to end against scan_path
+    import gitignore_stream
+    gi = gitignore_stream.correspond(ctx.rng("gitignore"), ctx.pick(150, 2000))
+    gs = gitignore_stream.correspond_scan(ctx.rng("gitignore-scan"), ctx.pick(40, 400))
+    for d in gi["disagreements"][:10]:
+        dis.append({"stream": "gitignore", "input": {"patterns": d["patterns"], "path": d["path"], "sources": d.get("sources")},
+                    "model": "excluded=%s" % d["model"], "impl": "excluded=%s" % d["real"]})
+    for d in (gi["parse_mismatch"] + gi["regex_mismatch"] + gi["model_errors"])[:10]:
+        dis.append({"stream": "gitignore-parse/regex", "input": d, "model": str(d)[:200], "impl": ""})
+    for d in gs["disagreements"][:10]:
+        fails.append({"input": {"stream": "gitignore-scan", "patterns": d.get("patterns"), "sources": d.get("sources")},
+                      "observed": {"extra_in_scan": d.get("extra_in_scan"), "missing_in_scan": d.get("missing_in_scan"), "error": d.get("error")},
+                      "required": "scan_path selects exactly the files that are not hidden, of a supported language and not excluded by the pattern model"})
+    dist["gitignore"] = {k: v for k, v in gi["counts"].items() if not isinstance(v, dict)}
+    dist["gitignore_scan"] = gs["counts"]
     return {
-        "evaluations": len(cases), "distinct_nontrivial": len(nontrivial),
-        "rule": "%d random trees (name pool: hidden .git/.venv/.cache/.hidden.py, built-in excluded tests/test/build/dist/node_modules/venv/_build/buck-out, ordinary src/pkg/a/lib; depth <= 4; supported, unsupported and no extension; Latin-1, malformed, empty contents) x 0-3 patterns of the 5 gitignore classes x pattern source (option/.codelimit.yml/.gitignore/mixed) x root form (%s) + %d fixed cases; non-trivial = distinct (tree, patterns) with at least one selected and one skipped file" % (n, "/".join(FORMS), len(FIXED) + len(FORMS)),
+        "evaluations": len(cases) + gi["counts"]["cases"] + gs["counts"].get("cases", 0), "distinct_nontrivial": len(nontrivial) + gi["counts"]["patterns_biting"],
+        "rule": "%d random trees (name pool: hidden .git/.venv/.cache/.hidden.py, built-in excluded tests/test/build/dist/node_modules/venv/_build/buck-out, ordinary src/pkg/a/lib; depth <= 4; supported, unsupported and no extension; Latin-1, malformed, empty contents) x 0-3 patterns of the 5 gitignore classes x pattern source (option/.codelimit.yml/.gitignore/mixed) x root form (%s) + %d fixed cases; non-trivial = distinct (tree, patterns) with at least one selected and one skipped file; PLUS pattern lists of the six classes x exhaustive / random path universes: the Lean pattern model vs Scanner.generate_exclude_spec + is_excluded (decisions, parse classes, generated regular expressions), and scan_path on real trees vs the model's selection (non-trivial there = patterns that exclude at least one path)" % (n, "/".join(FORMS), len(FIXED) + len(FORMS)),
         "samples": [{"form": c["form"], "patterns": c["patterns"], "sources": c["sources"],
                      "keys": [e[0] for e in o[0]["entries"]][:6]} for c, o in list(zip(cases, obs))[:4]],
         "exhaustive": False, "distribution": dist,
